@@ -54,7 +54,8 @@ PROP = {
     "id": "C02",
     "thm_module": "Tyme.Thm.C02",
     "thm_file": "Tyme/Thm/C02.lean",
-    "lean_targets": ["Tyme.Thm.C02"],
+    "lean_targets": ["Tyme.Thm.C02", "Tyme.Thm.C02b"],
+    "fact_files": [("Tyme/Thm/C02b.lean", "Tyme.Thm.C02b")],
     "audit_files": ["Tyme/Lemmas/Lunar.lean", "Tyme/Lemmas/LunarWalk.lean", "Tyme/Model/Lunar.lean", "Tyme/Model/Eph.lean",
                     "Tyme/Model/RealEph.lean", "Tyme/Facts/Months.lean", "Tyme/Facts/MonthsFact.lean", "Tyme/Basic/Packed.lean"],
     "gen": [gen_eph],
